@@ -156,7 +156,7 @@ class TlcResult:
         self.vacuous = False
 
 
-def tlc(module, cfg=None, workers=8, simulate=None, depth=None, env=None, timeout=600, coverage=False,
+def _tlc_raw(module, cfg=None, workers=8, simulate=None, depth=None, env=None, timeout=600, coverage=False,
         specdir=None, deadlock=False, xmx="8g", seed=None, dfs=False, extra=None):
     """Run TLC on spec/<module>.tla with spec/<cfg>. Returns TlcResult."""
     specdir = specdir or SPEC
@@ -230,6 +230,55 @@ def tlc(module, cfg=None, workers=8, simulate=None, depth=None, env=None, timeou
     if coverage:
         for m in re.finditer(r"<(\w+) line \d+, col \d+ to line \d+, col \d+ of module (\w+)>: (\d+):(\d+)", res.out):
             res.coverage[m.group(1)] = (int(m.group(3)), int(m.group(4)))
+    return res
+
+
+def tlc(module, cfg=None, **kw):
+    """Run TLC; when the configuration carries the marker line '\\* vacuity: on' and the run found no violation,
+    search a state satisfying each Witness<i> of the module (one extra TLC run per witness, in parallel, each expected to
+    violate NoWitness<i>).  A witness that is never found marks the result as vacuous."""
+    res = _tlc_raw(module, cfg, **kw)
+    specdir = kw.get("specdir") or SPEC
+    if res.error or res.violation or not cfg:
+        return res
+    cfgtxt = open(os.path.join(specdir, cfg)).read()
+    if "vacuity: on" not in cfgtxt:
+        return res
+    modtxt = open(os.path.join(specdir, module + ".tla")).read()
+    names = sorted(set(re.findall(r"^(NoWitness\d+) ==", modtxt, re.M)))
+    if not names:
+        return res
+    import threading
+    base = re.sub(r"(?m)^INVARIANTS?.*\n(?:[ \t]+\S.*\n)*", "", cfgtxt)
+    missing = []
+    lock = threading.Lock()
+
+    def one(nm):
+        path = os.path.join(specdir, ".wit_%s_%s_%d.cfg" % (module, nm, os.getpid()))
+        open(path, "w").write(base + "INVARIANT %s\n" % nm)
+        try:
+            k2 = dict(kw)
+            k2["workers"] = 4
+            k2["coverage"] = False
+            k2.pop("simulate", None)
+            r = _tlc_raw(module, os.path.basename(path), **k2)
+        finally:
+            try:
+                os.remove(path)
+            except OSError:
+                pass
+        with lock:
+            if r.violation != nm:
+                missing.append(nm + ((" (" + (r.error or "no state found") + ")")))
+    ths = [threading.Thread(target=one, args=(nm,)) for nm in names]
+    for t in ths:
+        t.start()
+    for t in ths:
+        t.join()
+    res.witnesses = len(names)
+    if missing:
+        res.vacuous = True
+        res.missing = missing
     return res
 
 
@@ -316,7 +365,7 @@ class Ctx:
     def add_tlc(self, res, what="", exhaustive=True):
         require_ok(res, what or "tlc")
         if res.vacuous:
-            raise MachineryError("%s: vacuity gate failed (a witness register was never set): the bounded model never exercised an antecedent" % what)
+            raise MachineryError("%s: vacuity gate failed: no reachable state satisfies %s - the bounded model never exercised an antecedent" % (what, getattr(res, "missing", "?")))
         self.states += res.distinct
         self.transitions += res.generated
         self.cmds.append(res.cmd)
